@@ -765,6 +765,8 @@ class Engine:
         for mir in self.mirs:
             for cand in (txt, p):
                 if cand in mir.index:
+                    if mir.headers[cand].startswith('fn '):
+                        return FnItem(cand)          # a function named as a value (`map_or("", format_defaultness)`)
                     return self.eval_const_item(st, cand)
             c = [n for n in mir.names() if n.endswith('::' + p) or p.endswith('::' + n)]
             c = [n for n in c if mir.headers[n].startswith('const ') or mir.headers[n].startswith('static ')]
